@@ -36,11 +36,18 @@ Proof.
 Qed.
 
 Lemma wellfield k :
-  (k_ppwc_valid k = false ->
+  (k_ppwc_valid k = false -> k_sbt k = false ->
      cwell k == (105 # 100) * (k_c1p_corr k * k_nprod k + k_c1i_corr k * k_ninj k + k_lateral k)) /\
+  (k_ppwc_valid k = false -> k_sbt k = true ->
+     cwell k == k_c1p_corr k * k_nprod k + k_c1i_corr k * k_ninj k + k_lateral k + k_junction k) /\
   (k_ppwc_valid k = true ->
      cwell k == k_ppwc k * k_nprod k + (if k_piwc_provided k then k_piwc k else k_ppwc k) * k_ninj k).
-Proof. unfold cwell, wells_sum, c1p, c1i, q105. split; intros H; rewrite H; ring. Qed.
+Proof.
+  unfold cwell, wells_sum, c1p, c1i, q105. split; [|split].
+  - intros H Hs. rewrite H, Hs. ring.
+  - intros H Hs. rewrite H, Hs. ring.
+  - intros H. rewrite H. ring.
+Qed.
 
 Lemma coam_sum k : k_oam_total_valid k = false ->
   coam k == coamwell k + coamplant k + coamwater k + chilleropex k + k_dh_oam k
